@@ -78,6 +78,17 @@ func runC18(in *Sx) *Sx {
 	if qv.Atom != "absent" {
 		u.RawQuery = url.Values{"q": {qv.Bytes()}}.Encode()
 	}
+	if j := in.Field("junk"); j != nil {
+		// a malformed pair elsewhere in the query string is dropped by net/url; the well-formed ones still count
+		tail := []string{"junk=%zz", "100%", "x=1;y=2", "%"}[j.Args()[0].Int()%4]
+		if u.RawQuery == "" {
+			u.RawQuery = tail
+		} else if j.Args()[0].Int() >= 4 {
+			u.RawQuery = tail + "&" + u.RawQuery
+		} else {
+			u.RawQuery += "&" + tail
+		}
+	}
 	// the router matches on URL.Path (already decoded); a "/" inside the value would split the segment
 	w := &wireWriter{hdr: http.Header{}}
 	f.ServeHTTP(w, &http.Request{Method: "GET", URL: u, Header: http.Header{}, Proto: "HTTP/1.1"})
@@ -142,6 +153,9 @@ func genC18(rng *rand.Rand, n int, tier string, emit func(*Sx)) {
 		in := T("in", T("q", q), T("p", X(p)), T("c", X(c18value(rng))), T("dstr", ds), T("dint", di), T("dbool", db))
 		if rng.Intn(5) == 0 {
 			in.List = append(in.List, T("q2", X(c18value(rng))))
+		}
+		if rng.Intn(5) == 0 {
+			in.List = append(in.List, T("junk", I(rng.Intn(8))))
 		}
 		emit(in)
 	}
